@@ -52,6 +52,7 @@ func runC03(c *RunCtx) {
 	reaperPrograms(c, 32, 160)
 	notifyPrograms(c, 40, 200)
 	stormPrograms(c, 32, 160)
+	batchPrograms(c, 64, 300)
 }
 
 func runC05(c *RunCtx) {
